@@ -277,6 +277,11 @@ def check_placeholder_completion(chk, F, rid="R17.9"):
         cases.append(("PubkeyHash|via-sig|" + nm, Adt(PH, "PubkeyHash", {"0": PKH, "1": size}),
                       {("lookup_raw_pkh_ecdsa_sig", (repr(PKH),)): (pkv, Term("sig"))}, want))
     cases.append(("PubkeyHash|unknown", Adt(PH, "PubkeyHash", {"0": PKH, "1": 34}), {}, None))
+    # Tapscript: the hash commits to the 32-byte key, which only the x-only look-up can name
+    cases.append(("PubkeyHash|x-only", Adt(PH, "PubkeyHash", {"0": PKH, "1": 33}),
+                  {("lookup_raw_pkh_x_only_pk", (repr(PKH),)): ("xonly", "K")}, ("bytes", "K", "x-only")))
+    cases.append(("PubkeyHash|x-only|full-key-held", Adt(PH, "PubkeyHash", {"0": PKH, "1": 33}),
+                  {("lookup_raw_pkh_pk", (repr(PKH),)): K}, None))
     for v, lk in (("Sha256Preimage", "lookup_sha256"), ("Hash256Preimage", "lookup_hash256"), ("Ripemd160Preimage", "lookup_ripemd160"),
                   ("Hash160Preimage", "lookup_hash160")):
         cases.append((v + "|known", Adt(PH, v, {"0": "H"}), {(lk, (repr("H"),)): PyVec([7] * 32)}, [7] * 32))
@@ -332,6 +337,149 @@ def check_placeholder_completion(chk, F, rid="R17.9"):
         except Panic as e:
             chk.fail(rid, name, "panic: %s" % e, F.fns[ps[0]]["span"])
     chk.floor(rid, "placeholder cases", n, 25)
+
+
+# ---- R17.17 what the template builders promise the same satisfier can deliver -----------------------------------------------
+
+def check_template_completable(chk, F, rid="R17.17"):
+    """the invariant behind `expect("the same satisfier should manage to complete the template")`"""
+    from ..interp import Machine, Adt, PyVec, Panic, some, NONE
+    from ..builtins import deref
+    import msverif.builtins as BB
+    chk.rule(rid, "every leaf builder of the satisfaction template (signature, pkh_public_key, pkh_signature, the four hash "
+                  "preimages; ECDSA and Schnorr contexts) emits placeholders only for what the very look-ups it consulted can "
+                  "deliver: with a satisfier holding exactly one look-up answer, whenever the builder returns a stack every "
+                  "placeholder on it is completed by Placeholder::satisfy_self from that same satisfier, with the key in the "
+                  "context's serialization (x-only 32 bytes in Tapscript) - so Satisfaction::satisfy's "
+                  "`expect(\"the same satisfier should manage to complete the template\")` cannot fire and a spend the "
+                  "caller holds everything for is found")
+    PH = "miniscript::satisfy::Placeholder"
+    WP = "miniscript::satisfy::Witness::<miniscript::satisfy::Placeholder<Pk>>::"
+    try:
+        ps = F.fn("satisfy_self", file="satisfy/mod.rs")
+        builders = {nm: [q for q in F.fns if q == WP + nm][0] for nm in
+                    ("signature", "pkh_public_key", "pkh_signature", "ripemd160_preimage", "hash160_preimage", "sha256_preimage",
+                     "hash256_preimage")}
+    except (KeyError, IndexError) as e:
+        chk.fail(rid, "anchor", "missing anchor %s" % e, kind="unanalysable")
+        return
+    imps = [i for i in F.impls if (i["trait"] or "").endswith("AssetProvider") and (i.get("self_ty") or "") in ("T",)]
+    if len(imps) != 1:
+        chk.fail(rid, "anchor|blanket", "blanket impl AssetProvider for T: Satisfier not found", kind="unanalysable")
+        return
+    items = {it["name"]: it["path"] for it in imps[0]["items"]}
+    chk.saw(ps, *builders.values())
+    held = {}
+    m = Machine(F, strict=True)
+    h = m.hooks
+
+    def look(name):
+        def f(m_, a, c):
+            k = tuple(repr(deref(x)) for x in a[1:])
+            v = held.get((name, k))
+            return some(v) if v is not None else NONE
+        return f
+    LOOKS = ("lookup_ecdsa_sig", "lookup_tap_key_spend_sig", "lookup_tap_leaf_script_sig", "lookup_raw_pkh_pk", "lookup_raw_pkh_ecdsa_sig",
+             "lookup_raw_pkh_tap_leaf_script_sig", "lookup_raw_pkh_x_only_pk", "lookup_sha256", "lookup_hash256", "lookup_ripemd160",
+             "lookup_hash160")
+    for nm in LOOKS:
+        h["Satisfier::" + nm] = look(nm)
+        h["miniscript::satisfy::Satisfier::" + nm] = look(nm)
+    # the provider the builders see is the satisfier itself, through the blanket impl (decided by R17.11)
+    for nm, path in items.items():
+        def prov(m_, a, c, path=path, nm=nm):
+            return m_.call_callee({"def": path, "resolved": path, "name": nm, "targs": ["SAT", "bitcoin::PublicKey"]}, a)
+        h["AssetProvider::" + nm] = prov
+        h["plan::AssetProvider::" + nm] = prov
+
+    def key(name, comp=True):
+        return Adt("bitcoin::PublicKey", "PublicKey", {"compressed": comp, "inner": name})
+    K = key("K")
+    XK = ("xonly", "K")
+    h["bitcoin::PublicKey::to_bytes"] = lambda m_, a, c: ("bytes", deref(a[0]).fields["inner"], "compressed" if deref(a[0]).fields["compressed"] else "uncompressed")
+    h["bitcoin::XOnlyPublicKey::serialize"] = lambda m_, a, c: ("bytes", deref(a[0])[1], "x-only")
+    h["bitcoin::secp256k1::XOnlyPublicKey::serialize"] = h["bitcoin::XOnlyPublicKey::serialize"]
+    h["ToPublicKey::to_public_key"] = lambda m_, a, c: deref(a[0])
+    h["ToPublicKey::to_x_only_pubkey"] = lambda m_, a, c: ("xonly", deref(a[0]).fields["inner"])
+    h["MiniscriptKey::is_uncompressed"] = lambda m_, a, c: (not deref(a[0]).fields["compressed"]) if isinstance(deref(a[0]), Adt) else False
+    h["MiniscriptKey::is_x_only_key"] = lambda m_, a, c: not isinstance(deref(a[0]), Adt)
+    TSIG = "bitcoin::taproot::Signature"
+    tsig = Adt(TSIG, "Signature", {"signature": Term("schnorr-sig"), "sighash_type": Adt("bitcoin::TapSighashType", "Default", {})})
+    for nm in ("bitcoin::taproot::Signature::to_vec", "bitcoin::taproot::Signature::serialize"):
+        h[nm] = lambda m_, a, c: ("sigbytes", "schnorr")
+    h["bitcoin::ecdsa::Signature::to_vec"] = lambda m_, a, c: ("sigbytes", "ecdsa")
+
+    def vlen(m_, a, c):
+        v = deref(a[0])
+        if isinstance(v, tuple) and v and v[0] == "bytes":
+            return {"x-only": 32, "compressed": 33, "uncompressed": 65}[v[2]]
+        if isinstance(v, tuple) and v and v[0] == "sigbytes":
+            return 64 if v[1] == "schnorr" else 72
+        return BB.NOT_HANDLED
+    h["std::vec::Vec::<T, A>::len"] = vlen
+    h["core::slice::<impl [T]>::len"] = vlen
+    LEAF, PKH = Term("leafhash"), Term("pkh")
+    CTXP = "miniscript::context::"
+    ESIG = Term("ecdsa-sig")
+    # (builder, ctx, args after the satisfier, holdings to try one at a time, the key form a PubkeyHash must come out in)
+    plan = [
+        ("signature", None, [K, NONE], "compressed"), ("signature", None, [K, some(LEAF)], "x-only"),
+        ("pkh_public_key", "Segwitv0", [PKH], "compressed"), ("pkh_public_key", "Legacy", [PKH], "compressed"),
+        ("pkh_public_key", "Tap", [PKH], "x-only"),
+        ("pkh_signature", "Segwitv0", [PKH, NONE], "compressed"), ("pkh_signature", "Legacy", [PKH, NONE], "compressed"),
+        ("pkh_signature", "Tap", [PKH, some(LEAF)], "x-only"),
+        ("ripemd160_preimage", None, ["H"], None), ("hash160_preimage", None, ["H"], None), ("sha256_preimage", None, ["H"], None),
+        ("hash256_preimage", None, ["H"], None),
+    ]
+    holdings = [
+        ("lookup_ecdsa_sig", (repr(K),), ESIG), ("lookup_tap_key_spend_sig", (repr(K),), tsig),
+        ("lookup_tap_leaf_script_sig", (repr(K), repr(LEAF)), tsig), ("lookup_raw_pkh_pk", (repr(PKH),), K),
+        ("lookup_raw_pkh_ecdsa_sig", (repr(PKH),), (K, ESIG)), ("lookup_raw_pkh_tap_leaf_script_sig", (repr((PKH, LEAF)),), (XK, tsig)),
+        ("lookup_raw_pkh_x_only_pk", (repr(PKH),), XK), ("lookup_sha256", (repr("H"),), PyVec([7] * 32)),
+        ("lookup_hash256", (repr("H"),), PyVec([7] * 32)), ("lookup_ripemd160", (repr("H"),), PyVec([7] * 32)),
+        ("lookup_hash160", (repr("H"),), PyVec([7] * 32)),
+    ]
+    holdings = [(lk, {(lk, k): v}) for lk, k, v in holdings]
+    byname = {lk: hd for lk, hd in holdings}
+    # a key hash's signature together with the look-up that names the key
+    for a_, b_ in (("lookup_raw_pkh_tap_leaf_script_sig", "lookup_raw_pkh_x_only_pk"), ("lookup_raw_pkh_ecdsa_sig", "lookup_raw_pkh_pk")):
+        holdings.append((a_ + "+" + b_, dict(list(byname[a_].items()) + list(byname[b_].items()))))
+    n = stacks = 0
+    for bname, ctx, args, keyform in plan:
+        targs = ["bitcoin::PublicKey", "SAT"] + ([CTXP + ctx] if ctx else [])
+        for lk, hd in holdings:
+            held.clear()
+            held.update(hd)
+            inst = "%s|%s|%s" % (bname, ctx or ("leaf" if args[-1] is not NONE and bname == "signature" else "any"), lk)
+            n += 1
+            try:
+                w = m.call_callee({"def": builders[bname], "resolved": builders[bname], "name": bname, "targs": targs},
+                                  [Term("satisfier")] + list(args))
+                w = deref(w)
+                if w.variant != "Stack":
+                    chk.ok(rid)
+                    continue
+                stacks += 1
+                bad = []
+                for ph in deref(w.fields["0"]).items:
+                    ph = deref(ph)
+                    r = m.call_callee({"def": ps, "resolved": ps, "name": "satisfy_self", "targs": ["bitcoin::PublicKey", "SAT"]},
+                                      [ph, Term("satisfier")])
+                    if r.variant == "None":
+                        bad.append("%s is not completed (satisfy_self gives None)" % ph.variant)
+                        continue
+                    got = deref(r.fields["0"])
+                    if ph.variant in ("PubkeyHash", "Pubkey") and keyform and not (isinstance(got, tuple) and got[:1] == ("bytes",) and got[2] == keyform):
+                        bad.append("%s is completed as %r, the context needs the %s key" % (ph.variant, got, keyform))
+                chk.obligation(rid, not bad, inst, "with only %s answering, %s%s builds a stack but %s"
+                               % (lk, bname, "::<%s>" % ctx if ctx else "", "; ".join(bad)), F.fns[builders[bname]]["span"])
+            except Unsupported as e:
+                chk.fail(rid, "unanalysable:" + inst, "unanalysable: %s" % e, where=e.where, kind="unanalysable")
+            except Panic as e:
+                chk.fail(rid, inst, "with only %s answering, %s%s builds a stack whose completion panics: %s"
+                         % (lk, bname, "::<%s>" % ctx if ctx else "", str(e)[:160]), F.fns[ps]["span"])
+    chk.floor(rid, "builder x holding cases", n, 150)
+    chk.floor(rid, "stacks completed", stacks, 16)
 
 
 # ---- R17.10 Assets as the planner's asset provider; R17.11 a Satisfier as asset provider ----------------------------------
@@ -1029,3 +1177,4 @@ def run(chk):
     # the locks a plan reports are merged part by part (rule shared with C03)
     from . import c03
     chk.guard("R17.15", "lock-merge", c03.check_lock_merge, chk, F, "R17.15")
+    chk.guard("R17.17", "template-completable", check_template_completable, chk, F)
